@@ -76,6 +76,110 @@ def coq_site(desc):
     return desc
 
 
+def snake(code):
+    import re
+    return re.sub(r"(?<!^)([A-Z])", r"_\1", code).lower()
+
+
+def lsp_stage(res, d, b, impl, req_of, picked, tier):
+    """The same oracle through the language server: for a few planted programs of this run the fault is planted by
+    didChange, undone by didChange and planted again (undo / redo in an editor); the client's last publishDiagnostics
+    for the file must contain the error covering the planted token after steps 1 and 3 and no error after step 2."""
+    import re
+    from vlib import lsp
+    ok, log, lsbin = vhdl_ls_build()
+    if not ok:
+        res.violation("vhdl_ls build failed against the current /repo tree", {"kind": "build", "log": log[-3000:]}, no_failing_input=True)
+        return
+    root = os.path.join(d, "lsp_ws")
+    import shutil
+    shutil.rmtree(root, ignore_errors=True)
+    os.makedirs(root)
+    toml = ["[libraries]"]
+    sessions = []
+    for pid, site, ec in picked:
+        m = b.meta[pid]
+        basepid = pid.rsplit(".", 1)[0] + ".b"
+        ffile = m["faulty_file"]
+        t1 = re.match(r"lib(\d+)_", ffile).group(1)
+        bfiles = b.by_pid.get(basepid)
+        if not bfiles:
+            continue
+        t0 = re.match(r"lib(\d+)_", next(iter(bfiles))).group(1)
+        libs = {}
+        planted_text = base_text = None
+        for name, lines in b.by_pid[pid].items():
+            bname = name.replace("lib%s_" % t1, "lib%s_" % t0, 1)
+            btext = "\n".join(bfiles[bname]).replace("lib%s_" % t0, "lib%s_" % t1) + "\n"
+            ptext = "\n".join(lines) + "\n"
+            # the workspace holds the VALID program; the fault only ever exists in the editor buffer
+            open(os.path.join(root, name), "w").write(btext)
+            lib = re.match(r"(lib\d+_\d+)_", name).group(1)
+            libs.setdefault(lib, []).append(name)
+            if name == ffile:
+                planted_text, base_text = ptext, btext
+        for lib, names in libs.items():
+            toml.append("%s.files = [%s]" % (lib, ", ".join("'%s'" % n for n in names)))
+        if planted_text is not None and planted_text != base_text:
+            sessions.append((pid, ffile, base_text, planted_text, site, ec))
+    open(os.path.join(root, "vhdl_ls.toml"), "w").write("\n".join(toml) + "\n")
+    if not sessions:
+        return
+    ls = lsp.LS(lsbin, root)
+    nbad = 0
+    try:
+        _resp, others = ls.initialize()
+        view = lsp.publish_map(others)
+
+        def errors_at(u):
+            return [x for x in view.get(u, []) if x.get("severity") == 1]
+
+        def covered(u, site, ec):
+            _, sf, sl, sc, sn = site
+            for x in errors_at(u):
+                r = x["range"]
+                if str(x.get("code")) in {snake(c) for c in CLASS_CODES[ec]} and \
+                        (r["start"]["line"], r["start"]["character"]) <= (sl, sc) and \
+                        (r["end"]["line"], r["end"]["character"]) >= (sl, sc + sn):
+                    return True
+            return False
+
+        for pid, ffile, base_text, planted_text, site, ec in sessions:
+            u = lsp.uri(os.path.join(root, ffile))
+            ls.notify("textDocument/didOpen", {"textDocument": {"uri": u, "languageId": "vhdl", "version": 0, "text": base_text}})
+            lsp.publish_map(ls.sync(), view)
+            trace = []
+            verdicts = []
+            for step, text in enumerate((planted_text, base_text, planted_text), 1):
+                ls.notify("textDocument/didChange", {"textDocument": {"uri": u, "version": step},
+                                                     "contentChanges": [{"text": text}]})
+                lsp.publish_map(ls.sync(), view)
+                trace.append([(x["range"]["start"]["line"], x["range"]["start"]["character"], str(x.get("code")), x["message"][:60])
+                              for x in errors_at(u)][:6])
+                verdicts.append(covered(u, site, ec) if step != 2 else not errors_at(u))
+            res.count_case("lsp|%s|%s" % (pid, b.meta[pid]["fault"]), True)
+            if not all(verdicts):
+                nbad += 1
+                if nbad <= 3:
+                    which = ["plant", "undo", "plant again"][verdicts.index(False)]
+                    res.violation("through the language server: after step `%s` of plant / undo / plant-again of fault %s the client's last "
+                                  "publishDiagnostics for %s %s (errors shown after the three steps: %s)"
+                                  % (which, b.meta[pid]["fault"], ffile,
+                                     "still shows an error" if which == "undo" else "does not contain the error covering the planted token %d:%d+%d" % (site[2], site[3], site[4]),
+                                     trace),
+                                  {"kind": "input", "request": req_of[pid.rsplit(".", 1)[0]], "pid": pid, "fault": b.meta[pid]["fault"],
+                                   "stage": "lsp", "file": ffile, "steps": ["didChange(planted)", "didChange(valid)", "didChange(planted)"],
+                                   "errors_after_each_step": trace, "replay_cmd": "./check C06 --replay <this file>"})
+            ls.notify("textDocument/didClose", {"textDocument": {"uri": u}})
+        ls.shutdown()
+    except lsp.ServerDied as ex:
+        ls.kill()
+        res.violation("vhdl_ls died during the plant / undo / plant-again stage: %s" % str(ex)[:300],
+                      {"kind": "input", "stage": "lsp", "sessions": [x[0] for x in sessions]})
+    res.coverage["lsp_sessions"] = len(sessions)
+    shutil.rmtree(root, ignore_errors=True)
+
+
 def check_templates(res, hbin, d, tier, only=None):
     """exploration-only stream (checks/c06_templates.py): constructs outside the MiniVHDL reference, outside the theorems"""
     from checks import c06_templates as T
@@ -173,6 +277,7 @@ def main(tier, replay=None):
     known = Counter()
     nviol = 0
     coq_items = []
+    lsp_picked = []
 
     def viol(what, rp, **kw):
         nonlocal nviol
@@ -228,6 +333,8 @@ def main(tier, replay=None):
         rp["site"] = {"file": site[1], "line": site[2], "col": site[3], "len": site[4]}
         rp["diagnostics"] = [base.describe_diag(x) for x in errs][:12]
         cover = [x for x in errs if x["code"] in CLASS_CODES[ec] and covers(x, site)]
+        if cover and len(lsp_picked) < (10 if tier == "quick" else 40) and fclass not in [b.meta[q[0]]["fault"].split()[0] for q in lsp_picked[-3:]]:
+            lsp_picked.append((pid, site, ec))
         if not cover:
             kf = known_match(fclass, site_kind)
             if kf is not None:
@@ -247,6 +354,9 @@ def main(tier, replay=None):
     for kid, cnt in sorted(known.items()):
         e = [x for x in known_findings(PROP) if x["id"] == kid][0]
         res.known_finding("%s (%s; %d planted programs in this run)" % (e.get("open", kid), kid, cnt))
+    # the same oracle through the language server (plant / undo / plant again)
+    if lsp_picked:
+        lsp_stage(res, d, b, impl, req_of, lsp_picked, tier)
     # the reference inside Coq on a sample of planted programs
     if coq_items and not replay:
         pre = base.COQ_PRE
@@ -286,7 +396,10 @@ def main(tier, replay=None):
                         "selected assignments, generate conditions and ranges, call actuals positional/named/individual) and "
                         "duplicates declarations of every kind in every kind of region (second declaration / second body with "
                         "and without separate declaration / protected body method / ports, generics, fields, literals, "
-                        "parameters): outside the theorems, valid-by-inspection bases are analysed too"),
+                        "parameters): outside the theorems, valid-by-inspection bases are analysed too.  LSP stage "
+                        "(coverage.lsp_sessions): for some planted programs of the run the fault is planted, undone and planted again by "
+                        "didChange against the vhdl_ls binary and the client's last publishDiagnostics must show the error covering "
+                        "the token after steps 1 and 3 and none after step 2"),
         "partial": True,
         "trusted_base": TRUSTED_BASE_COMMON + [
             "class -> ErrorCode table (checks/c06.py CLASS_CODES) reviewed against vhdl_lang/src/analysis",
